@@ -9,6 +9,8 @@ EXTENDS MxjMapGen, MxjMutate, Json
 CONSTANTS UpdKeys, PathNames, MaxPath, NewVals, DoEmit
 CondSets == {{}, {[k |-> "b", neg |-> FALSE, kind |-> "s", v |-> "x"]}, {[k |-> "a", neg |-> TRUE, kind |-> "star", v |-> "*"]},
              {[k |-> "b", neg |-> FALSE, kind |-> "b", v |-> "false"]}}       \* (a boolean condition holds for the boolean only, not for whatever else is not true)
+            \cup (IF VF("1.6777217e+07") \in Scalars       \* (numbers that differ in double precision only: a numeric condition compares exactly)
+                  THEN {{[k |-> "b", neg |-> FALSE, kind |-> "f", v |-> "1.6777217e+07"]}, {[k |-> "b", neg |-> TRUE, kind |-> "f", v |-> "1.6777216e+07"]}} ELSE {})
 RECURSIVE NamePaths(_)
 NamePaths(l) == IF l = 0 THEN {<<>>}
                 ELSE LET P == NamePaths(l-1) IN P \cup {Append(p, s) : p \in {q \in P : Len(q) = l-1}, s \in PathNames}
@@ -33,4 +35,6 @@ cNewVals2 == {VS("N"), VM("n" :> VS("N")), VL(<<VS("N")>>)}
 \* placeholder alphabets (check.py SUBST)
 cScalarsLong == {VS("x"), VS("^")}
 cNewValsLong == {VS("N^"), VM("~" :> VS("N"))}      \* (a new value is not one of the old ones: the frame counts replaced values by their difference)
+cScalarsF32 == {VF("1.6777216e+07"), VF("1.6777217e+07")}      \* 2^24 and 2^24 + 1: one number in single precision, two in double
+
 =============================================================================
